@@ -379,10 +379,13 @@ CHECKS = {
                 "arithmetic and continuation; the kernels receive the "
                 "instance's bin width and height in this order."
                 " Loop-carried names of the per-bin sweep (area accumulator, position) must be set again at the start of every bin."
-                " The declared upper bound is accepted when it is coefficient-wise at least n_items*S or the recognised tight form of its tie-breaker kind, and refuted by evaluating the bound polynomial for two families of feasible packings with known value; a constant offset of the per-bin table index is normalised into the slice bounds.",
+                " The declared upper bound is accepted when it is coefficient-wise at least n_items*S or the recognised tight form of its tie-breaker kind, and refuted by evaluating the bound polynomial for two families of feasible packings with known value; a constant offset of the per-bin table index is normalised into the slice bounds."
+                " The declared lower bounds are evaluated on three families of feasible packings with known value (one item filling the bin, n unit squares in one bin, two bin-filling items) and must not exceed it.",
         "design_ref": "DESIGN.md section 4, C02 and 10.2",
-        "note": "Decides D2.1-D2.6. Not decided: validity of lower_bound() "
-                "for the objectives with a secondary term, dominance "
+        "note": "Decides D2.1-D2.6. Validity of lower_bound() for the "
+                "objectives with a secondary term is decided only as a "
+                "necessary condition (witness packings); not decided: "
+                "dominance "
                 "between packings. Trusted: Packing shape contract, N1.",
         "technique": "loop-reduction normal forms + polynomial coefficient "
                      "extraction + sibling agreement across methods + "
